@@ -85,10 +85,27 @@ def run_unit(name, spec, repo, workdir, tier="quick", seed=0, threads=4, timeout
     res["cfg"] = vxlog["cfg"]
     res["gen_sha"] = sha(gen)
     gen_lines = open(gen).read().split("\n")
+    # `also`: unit-level attribution, e.g. {"C04": ["C05"]} — in this unit every clause of C04 is also a clause of C05 (the unit is one of two
+    # copies / backends that must satisfy one contract, so failing it is also an observable difference between configurations)
+    also = spec.get("also", {})
+
+    def expand(props):
+        out = []
+        for pr in props:
+            for q in [pr] + list(also.get(pr, [])):
+                if q not in out:
+                    out.append(q)
+        return out
+    for it in res["items"]:
+        if it.get("props"):
+            it["props"] = " ".join(expand(it["props"].replace(",", " ").split()))
+    for it in vxlog["items"]:
+        if it.get("props"):
+            it["props"] = " ".join(expand(it["props"].replace(",", " ").split()))
     # tag inventory
     for i, l in enumerate(gen_lines):
         for m in TAG_RE.finditer(l):
-            for pr in m.group(1).split(","):
+            for pr in expand(m.group(1).split(",")):
                 res["tags"].append({"prop": pr, "tag": m.group(2), "gen_line": i + 1})
     res["trusted"] = scan_trusted(gen)
     bad = [t for t in res["trusted"] if t["kind"] in ("admit", "assume")]
@@ -177,7 +194,7 @@ def run_unit(name, spec, repo, workdir, tier="quick", seed=0, threads=4, timeout
                 gl = loc[1]
                 fl["gen_line"] = gl
                 fl["text"] = gen_lines[gl - 1].strip() if gl - 1 < len(gen_lines) else ""
-                fl["tags"] = [(m2.group(1), m2.group(2)) for m2 in TAG_RE.finditer(fl["text"])]
+                fl["tags"] = [(",".join(expand(m2.group(1).split(","))), m2.group(2)) for m2 in TAG_RE.finditer(fl["text"])]
                 if gl in linemap:
                     fl["src"] = "%s:%d" % linemap[gl]
                 # secondary spans (e.g. the call site for a failed precondition) help attribute to a fn
